@@ -7,10 +7,14 @@ import (
 	"encoding/binary"
 	"errors"
 	"fmt"
+	"math"
 	"math/rand"
+	"os"
+	"path/filepath"
 	"runtime"
 	"time"
 
+	"github.com/IrineSistiana/mosdns/v5/plugin/executable/cache"
 	"github.com/klauspost/compress/gzip"
 
 	"verif/harness/vh"
@@ -24,16 +28,17 @@ type Shape struct { // an entry of a TLC-exported state, relative to its `now`
 }
 
 type C19Job struct {
-	Behaviours []Behaviour `json:"behaviours"`
-	Map        Map         `json:"map"`
-	Maps       []Map       `json:"maps"` // behaviours are realised under Maps[bi % len] (default: Map)
-	Shapes     []Shape     `json:"shapes"`
-	BigN       int         `json:"big_n"`
-	BigExec    int         `json:"big_exec"`
-	Cuts       string      `json:"cuts"` // "quick" | "all" | "none"
-	CutList    []int       `json:"cut_list"`
-	Garbage    int         `json:"garbage"`
-	Lazy       int         `json:"lazy"`
+	Behaviours  []Behaviour `json:"behaviours"`
+	Map         Map         `json:"map"`
+	Maps        []Map       `json:"maps"` // behaviours are realised under Maps[bi % len] (default: Map)
+	Shapes      []Shape     `json:"shapes"`
+	BigN        int         `json:"big_n"`
+	BigExec     int         `json:"big_exec"`
+	Cuts        string      `json:"cuts"` // "quick" | "all" | "none"
+	CutList     []int       `json:"cut_list"`
+	Garbage     int         `json:"garbage"`
+	FileRestart int         `json:"file_restart"` // rounds of the dump_file / Close / re-Init leg
+	Lazy        int         `json:"lazy"`
 }
 
 // runC19: a GET /dump that fails for a legally filled cache is a RESULT (the check turns it into a
@@ -70,6 +75,11 @@ func runC19x(j *C19Job) error {
 	}
 	if j.BigN > 0 {
 		if err := c19Big(j, hv, rng); err != nil {
+			return err
+		}
+	}
+	for r := 0; r < j.FileRestart; r++ {
+		if err := c19File(j, hv, r); err != nil {
 			return err
 		}
 	}
@@ -330,6 +340,109 @@ func c19Big(j *C19Job, hv *keyHarvester, rng *rand.Rand) error {
 	return nil
 }
 
+// c19File: the FILE based path (dump_file): the plugin dumps on Close and loads in Init. A = instance 1
+// stores, is closed (dump), B = instance 2 starts from the file and must serve the same; B is flushed and
+// closed (the dump of an EMPTY cache replaces the file), C (slot 1 again) starts from the file and must be empty.
+// round 1 closes B without flushing (the file must still hold everything), round 2 lets A be empty from the start.
+func c19File(j *C19Job, hv *keyHarvester, round int) error {
+	dir, err := os.MkdirTemp("", "verif-c19-")
+	if err != nil {
+		return err
+	}
+	defer os.RemoveAll(dir)
+	file := filepath.Join(dir, "cache.dump")
+	m := cloneMap(&j.Map)
+	args := func() *cache.Args { return &cache.Args{Size: 4096, DumpFile: file, DumpInterval: 3600} }
+	var rec TraceRec
+	for attempt := 0; attempt < 3; attempt++ {
+		os.Remove(file)
+		w := newWorld(m, 0, hv, nil)
+		w.base = time.Now()
+		kn := map[int]known{}
+		a, err := newInstArgs(args())
+		if err != nil {
+			return err
+		}
+		w.insts[1] = a
+		qs := []AQ{}
+		if round != 2 {
+			for k := 0; k < 6; k++ {
+				nm := fmt.Sprintf("f%d", k)
+				m.Names[nm] = fmt.Sprintf("file-%d.restart.example.", k)
+				q := AQ{N: nm, T: []string{"t1", "t2"}[k%2], C: "c1", F: k % 8, K: "std"}
+				qs = append(qs, q)
+				if _, _, err := w.doExec(1, q, AR{Rc: 0, Nan: 1, Ttls: []int{300, 600}}, kn); err != nil {
+					return err
+				}
+			}
+		}
+		hadFile := false
+		readFile := func(i int) bool {
+			du := nowUnix()
+			body, err := os.ReadFile(file)
+			code := 200
+			if err != nil && !hadFile {
+				body, err = encodeDump(nil, 128), nil // never dumped anything and no file: same as an empty dump
+			}
+			if err != nil {
+				code, body = 598, nil // the dump file disappeared
+				w.notes = append(w.notes, "dump file: "+err.Error())
+			} else {
+				hadFile = true
+			}
+			b, _ := w.dumpEvent(i, du, code, body, true, true)
+			return b != nil
+		}
+		restart := func(slot int) error {
+			in, err := newInstArgs(args())
+			if err != nil {
+				return err
+			}
+			w.insts[slot] = in
+			w.events = append(w.events, ev{"ev": "Load", "j": slot, "status": 200})
+			return nil
+		}
+		probe := func(i int) error {
+			for _, q := range qs {
+				if _, _, err := w.doExec(i, q, AR{Rc: 0, Nan: 1, Ttls: []int{77}}, kn); err != nil {
+					return err
+				}
+			}
+			return nil
+		}
+		a.close() // Close dumps to the file
+		ok := readFile(1)
+		if ok {
+			if err := restart(2); err != nil {
+				return err
+			}
+			if err := probe(2); err != nil {
+				return err
+			}
+			if round != 1 {
+				w.doFlush(2, true)
+			}
+			w.insts[2].close()
+			if readFile(2) {
+				w.events = append(w.events, ev{"ev": "Flush", "i": 1, "strict": true}) // instance A is gone
+				if err := restart(1); err != nil {
+					return err
+				}
+				if err := probe(1); err != nil {
+					return err
+				}
+			}
+		}
+		w.close()
+		rec = TraceRec{Kind: "trace", Beh: -1, Step: round, Tag: "file-restart", Events: w.events, Slow: w.slow, Notes: w.notes}
+		if !w.slow {
+			break
+		}
+	}
+	vh.Emit(rec)
+	return nil
+}
+
 // ---- corrupted / arbitrary input: observation premises (no panic, no hang, bounded allocation)
 
 func gz(name string, raw []byte) []byte {
@@ -410,6 +523,30 @@ func c19Garbage(j *C19Job, hv *keyHarvester, rng *rand.Rand) error {
 		tc{"many-max-blocks-short", gz(dumpHeader, bytes.Repeat(hdr(1<<20, nil), 1000))},
 		tc{"proto-garbage", gz(dumpHeader, hdr(6, []byte{0x0a, 0xff, 0xff, 0xff, 0xff, 0x0f}))},
 	)
+	// structured corruption: valid gzip, valid block framing, valid protobuf — adversarial field contents
+	var okMsg []byte
+	if mm, err := entryMsg(CQ{Name: "ok.example.", Type: 1, Class: 1}, AR{Rc: 0, Nan: 1, Ttls: []int{300}}, 7).Pack(); err == nil {
+		okMsg = mm
+	}
+	far := time.Now().Unix() + 3600
+	keys := [][]byte{nil, []byte("a"), {0, 0, 1, 0, 1}, {0, 0, 1, 0, 1, 3}, []byte("\x00\x00\x01\x00\x01\x0bok.example.")}
+	msgs := [][]byte{nil, {0}, bytes.Repeat([]byte{0xff}, 11), okMsg[:max(len(okMsg)-3, 0)], okMsg}
+	times := [][3]int64{{far, far, far - 3700}, {0, 0, 0}, {-1, -1, -1}, {math.MaxInt64, math.MaxInt64, math.MinInt64}, {far, far - 7200, math.MaxInt64}}
+	for ki, k := range keys {
+		for mi, mg := range msgs {
+			for ti, t := range times {
+				e := &CachedEntry{Key: k, Msg: mg, CacheExpirationTime: t[0], MsgExpirationTime: t[1], MsgStoredTime: t[2]}
+				cases = append(cases, tc{fmt.Sprintf("structured-key%d-msg%d-times%d", ki, mi, ti), encodeDump([]*CachedEntry{e}, 128)})
+			}
+		}
+	}
+	{
+		var many []*CachedEntry
+		for n := 0; n < 300; n++ {
+			many = append(many, &CachedEntry{Key: keys[n%len(keys)], Msg: msgs[(n/5)%len(msgs)], CacheExpirationTime: far, MsgExpirationTime: far, MsgStoredTime: far - 3600})
+		}
+		cases = append(cases, tc{"structured-mixed-300", encodeDump(many, 128)})
+	}
 	for _, c := range cases {
 		in, err := newInst(0, 4096)
 		if err != nil {
